@@ -114,6 +114,14 @@ struct Unbounded {
   NOP_STRUCTURE(Unbounded, (data, size));
   NOP_UNBOUNDED_BUFFER(Unbounded);
 };
+// an unbounded buffer whose size member is narrower than the wire's 64-bit count (the decoder must refuse what it cannot count)
+template <typename T>
+struct UnboundedSmall {
+  std::uint8_t size;
+  T data[1];
+  NOP_STRUCTURE(UnboundedSmall, (data, size));
+  NOP_UNBOUNDED_BUFFER(UnboundedSmall);
+};
 
 template <typename T>
 struct Wrap {
